@@ -858,6 +858,63 @@ func linearise(ops []cop, sink, src []call, ci, cr int64) (string, string, bool)
 	return "fseq\t" + strings.Join(opsS, ","), strings.Join(outs, " ") + " |R:" + strings.Join(rlog, ",") + " |W:" + strings.Join(wlog, ","), true
 }
 
+// tightClose: many short rounds of "one Write blocked in the underlying stream, three Close calls
+// released at the same instant" — the few-instruction windows inside connFeeder.close.
+func tightClose(seed uint64, idx, procs int, o *vh.Out) {
+	runtime.GOMAXPROCS(procs)
+	line := fmt.Sprintf("c41tight\t%d\t%d\t%d", seed, idx, procs)
+	o.Count("stress_tight_close")
+	o.Count(fmt.Sprintf("stress_procs_%d", procs))
+	for round := 0; round < 60; round++ {
+		plan := func(seq int, b []byte) behaviour { return behaviour{n: len(b), block: true} }
+		in, out := newStream(true, plan), newStream(false, plan)
+		conn := fakenet.NewConn("tight", in, out)
+		ch := make(chan result, 1)
+		go func() { n, err := conn.Write([]byte("tight")); ch <- result{n, err} }()
+		fail := func(key, detail string) {
+			o.Oracle(key, line, fmt.Sprintf("round %d: %s", round, detail))
+			o.Stats["stress_failed"]++
+			in.Close()
+			out.Close()
+		}
+		select {
+		case <-out.entered:
+		case <-time.After(3 * time.Second):
+			fail("call-never-reached-stream", "")
+			return
+		}
+		start := make(chan struct{})
+		var cwg sync.WaitGroup
+		for k := 0; k < 3; k++ {
+			cwg.Add(1)
+			go func() { defer cwg.Done(); <-start; conn.Close() }()
+		}
+		close(start)
+		cdone := make(chan struct{})
+		go func() { cwg.Wait(); close(cdone) }()
+		select {
+		case <-cdone:
+		case <-time.After(5 * time.Second):
+			fail("close-hang", "three concurrent Close calls did not all return")
+			return
+		}
+		select {
+		case res := <-ch:
+			if res.String() != "EOF" {
+				fail("pending-call-not-eof", fmt.Sprintf("a Write pending during three concurrent Close calls returned %v (%v)", res, res.err))
+				return
+			}
+		case <-time.After(5 * time.Second):
+			fail("pending-call-not-unblocked", "a Write pending during three concurrent Close calls never returned")
+			return
+		}
+		in.Close()
+		out.Close()
+	}
+	o.N++
+	o.Stats["stress_oracle_only"]++
+}
+
 func bucket(n int) string {
 	switch {
 	case n == 0:
@@ -899,6 +956,10 @@ func childStress(f *vh.Flags, o *vh.Out) {
 	seed := f.Seed ^ uint64(*procs)*104729
 	r := vh.NewRand(seed)
 	for i := 0; i < f.N && o.Stats["stress_failed"] < 3; i++ {
+		if *procs > 1 && r.Fork(i).Chance(15) {
+			tightClose(seed, i, *procs, o)
+			continue
+		}
 		stressCase(genStress(r.Fork(i), seed, i, *procs), o)
 	}
 }
@@ -1055,6 +1116,16 @@ func replay(f *vh.Flags, o *vh.Out) {
 		// in a child: the failure may be a crash
 		for i := 0; i < 300 && o.Stats["oracle_fail"] == 0; i++ {
 			stressCase(cfg, o)
+		}
+	case "c41tight":
+		if len(fs) < 4 {
+			return
+		}
+		seed, _ := strconv.ParseUint(fs[1], 10, 64)
+		idx, _ := strconv.Atoi(fs[2])
+		p, _ := strconv.Atoi(fs[3])
+		for i := 0; i < 200 && o.Stats["oracle_fail"] == 0; i++ {
+			tightClose(seed, idx, p, o)
 		}
 	case "c41child":
 		if len(fs) < 5 {
